@@ -816,5 +816,6 @@ def replay(ctx, data):
 LEAN_TARGETS = LEAN_TARGETS + ["OdxVerif.Props.C05Nested"]
 THEOREMS = THEOREMS + ["OdxVerif.Codec." + t for t in [
     "C05_truncated_rejected_nested", "C05_no_invention_nested", "C05_truncated_rejected_site", "C05_nested_result_classes",
-    "C05_jump_is_not_a_read", "C05_truncated_rejected_described", "C05_truncated_leaf_described",
+    "C05_jump_is_not_a_read", "C05_truncated_rejected_comps", "C05_truncated_rejected_described", "C05_truncated_rejected_described2",
+    "C05_truncated_leaf_described",
     "C05_truncated_leaf_described_example", "Comps.reads_prefix", "Reads.rejected", "Reads.msg", "keeps_decode_all", "c5Req_reads"]]
